@@ -295,7 +295,8 @@ def r14_5(ctx):
                 ok = True
     ctx.check(ok, "Stage.set_der records the derivative scale under the same state", detail="derivative scale of another state", expected="self._scale_der[state] = self._parse_scale(state, scale)", found="", fi=g)
     p = prog.own_method("Stage", "_parse_scale")
-    rets = [(ast.unparse(r.value), [(ast.unparse(t), pol) for t, pol in ctx.scope(p).path_guards(r)]) for r in walk_no_nested(p.node) if isinstance(r, ast.Return)]
+    from ..norm import return_cases
+    rets = return_cases(ctx.scope(p))
     want = [("DM.ones(%s.sparsity()) * %s" % (p.params[1], p.params[2]), [("DM(%s).is_scalar()" % p.params[2], True)]), (p.params[2], [("DM(%s).is_scalar()" % p.params[2], False)])]
     ctx.check(rets == want, "Stage._parse_scale broadcasts scalars and passes matrices through", detail="scale parsing", expected=want, found=rets, fi=p)
     for reg, lst in (("register_state", "x"), ("register_algebraic", "z"), ("register_control", "u"), ("register_variable", "v")):
